@@ -849,11 +849,13 @@ def check_C05(c):
     q = c.quick
     inv = ["TypeOK", "ForwardVisitsAll", "Emit"]
     k = dict(MinRank=0, MaxRank=3 if q else 4, MaxDim=3, MaxDimHi=2, HiRank=3 if q else 4, Ctors={S("C"), S("F")},
-             ViewDepth=1 if q else 2, Mode=S("flat"), Lays={S("C")})
-    if not q:
-        k.update(MaxDim=2)
+             ViewDepth=1, Mode=S("flat"), Lays={S("C")})
     cases = c.tlc("MC_iter", "iter-flat", k, inv)
-    c.replay("iter-flat", cases, dtypes="float64,uint8,string", pals="ident", rotate=1 if q else 0)
+    c.replay("iter-flat", cases, dtypes="float64,uint8,string", pals="ident", rotate=1)
+    if not q:   # two view steps on rank <= 3 with dims <= 2 (row-major)
+        kd = dict(MinRank=1, MaxRank=3, MaxDim=2, MaxDimHi=2, HiRank=3, Ctors={S("C")}, ViewDepth=2, Mode=S("flat"), Lays={S("C")})
+        cases = c.tlc("MC_iter", "iter-flat-d2", kd, inv)
+        c.replay("iter-flat-d2", cases, dtypes="float64", pals="ident")
     if not q:
         k2 = dict(MinRank=1, MaxRank=3, MaxDim=3, MaxDimHi=3, HiRank=4, Ctors={S("C"), S("F")}, ViewDepth=1, Mode=S("flat"), Lays={S("C")})
         cases = c.tlc("MC_iter", "iter-flat3", k2, inv)
